@@ -747,7 +747,7 @@ def run(chk: core.Check) -> int:
         if not hit:
             chk.notes.append("witness of %s no longer fails with its signature (stale finding?) — %d failures" % (wid, len(fails)))
     # ---- (2) main stream: generated interfaces x all configurations ---------------------------------------------
-    n_ir = 300 if chk.quick else 7000
+    n_ir = 230 if chk.quick else 5000
     cases = gen_cases(rng, n_ir)
     cov = collections.Counter()
     n_claimed = n_thm = n_hyp = n_in = n_main = 0
@@ -783,7 +783,7 @@ def run(chk: core.Check) -> int:
                 chk.sample({"fmt": rec["fmt"], "cfg": rec["cfg"], "ir": rec["irj"], "src": rec["real"].get("src"), "parsed_view": view(rec["real"]["parsed"]) if "parsed" in rec["real"] else None,
                             "in_D02": in_dom, "doc_hyp": hyp, "failures": [t for _, t in fails][:3]})
     # ---- (3) parse-only stream -----------------------------------------------------------------------------------
-    all_srcs = gen_parse_sources(rng, 1500 if chk.quick else 12000)
+    all_srcs = gen_parse_sources(rng, 1000 if chk.quick else 12000)
     for i in range(0, len(all_srcs), 3000):
         srcs = all_srcs[i:i + 3000]
         preals = core.pmap(real_parse_source, srcs, chunksize=32)
